@@ -129,6 +129,16 @@ UNITS.append(flow.Unit('ehep', groups=['ehep'], props=['props/C01_ehep.v'], cust
                             'correspondence reads the region label the real solver returns)'))
 
 
+import guderley_corr as GDC
+import guderley_oracle as GDO
+UNITS.append(flow.Unit('guderley', groups=['guderley'], props=['props/C01_guderley.v'], custom_corr=GDC.unit_corr, oracle=GDO.pde_oracle, always_oracle=True,
+                       findings=[dict(id='guderley-lazarus-time-units', refuted='props/C01_guderley_refuted.v', pending=None,
+                                      what="Guderley returns velocities / pressures per unit of Lazarus time (tau = t / 0.750024322 - 1) while taking the caller's t: mass equation residual 9e-2 in the caller's (r, t) (geometry=3, gamma=3, r=1.5, t=0.3)",
+                                      replay=GDO.replay_c01)],
+                       note='Guderley: IF the similarity variables solve the coded ODEs y\' = g(x, y) THEN the fields built by state() satisfy mass, momentum and energy '
+                            'conservation in (r, Lazarus time) (theorem; g and the field map regenerated from ramsey.py, tied by a probe that replaces solve_ivp); '
+                            'that solve_ivp solves the ODEs is checked by the finite-difference oracle on the real solver in every branch'))
+
 def run(report, tier, rng):
     report.assumptions += [
         'real-number semantics of the generated model (IEEE rounding not modelled; measured by the correspondence goals)',
